@@ -109,3 +109,34 @@ theorem updateCovs_spectator (n : Nat) (hn : 0 < n) (modes : List Nat) (S Y : Na
 end
 
 end SFV.Bos
+
+namespace SFV.Bos
+section
+variable {K : Type} [Semiring K]
+
+theorem fromXp_quad {n r : Nat} (hn : 0 < n) (h : r < 2 * n) : fromXp n r / n = r % 2 := by
+  unfold fromXp
+  have h2 : r / 2 < n := by omega
+  rcases Nat.mod_two_eq_zero_or_one r with h0 | h1
+  · rw [h0, Nat.zero_mul, Nat.add_zero]; exact Nat.div_eq_of_lt h2
+  · rw [h1, Nat.one_mul, Nat.add_div_right _ hn, Nat.div_eq_of_lt h2]
+
+/-- **the expanded, permuted `X` in a row of a target mode, for any list of target modes in any order**: the entry in
+column `c` is the block entry at (position of the row's mode in the list + quadrature·k, position of the column's mode +
+quadrature·k) when the column's mode is listed too, and zero otherwise -/
+theorem permBoth_expand_target_general (n : Nat) (hn : 0 < n) (modes : List Nat) (S : Nat → Nat → K)
+    {r c : Nat} (hr : r < 2 * n) (hc : c < 2 * n) (hrm : (r / 2) ∈ modes) :
+    permBoth n (expand n modes S) r c =
+      if (c / 2) ∈ modes then
+        S (modes.idxOf (r / 2) + (r % 2) * modes.length) (modes.idxOf (c / 2) + (c % 2) * modes.length)
+      else 0 := by
+  unfold permBoth expand
+  have hpr : posOf modes (fromXp n r % n) = some (modes.idxOf (r / 2)) := by
+    rw [fromXp_mode hn hr]; simp [posOf, hrm]
+  rw [hpr, fromXp_quad hn hr, fromXp_quad hn hc, fromXp_mode hn hc]
+  by_cases hcm : (c / 2) ∈ modes
+  · simp [posOf, hcm]
+  · simp [posOf, hcm]
+
+end
+end SFV.Bos
